@@ -33,6 +33,11 @@
         `P` a placeholder, `UB` an unchecked access outside the source.
         f=mut appends ` distinct=ok|ALIAS` (all handed out cells pairwise different),
         f=owned appends ` drops=ok`.
+    consume m=<count|last|fold|nth.<j>|panic.<p>> after=<k> [k=…] f=… wi=… n=<calls>
+        `after` plain calls, then std's consumer on top of `next` (`Iterator::count`, `last`, `fold`,
+        `nth(j)`, or `by_ref().for_each` with a closure that panics at its p-th element), then — for
+        `nth` and `panic` — the records of `n` further calls on the surviving iterator, and for
+        `panic` the values a fresh iterator over the same source yields afterwards
     left [k=…] n=<calls>
         owned iteration for n calls, iterator dropped, leaf contents (`P` = placeholder)
 
@@ -49,8 +54,8 @@ open EasyMl EasyMl.Iter EasyMl.View Driver
 inductive Src where
   | none
   | shape (lens : List Nat)
-  | tensor (names : List String) (src : TSource Nat) (leafIds : List Nat)
-  | matrix (src : MSource Nat) (leafIds : List Nat)
+  | tensor (names : List String) (src : TSource Nat) (leafIds : List Nat) (mode : String)
+  | matrix (src : MSource Nat) (leafIds : List Nat) (mode : String)
 
 abbrev State := Src
 
@@ -78,7 +83,16 @@ def showHint : Outcome (Nat × Option Nat) → String
 /-- memory of the leaf: `some id` an original value, `none` a placeholder -/
 abbrev Mem := Nat → Option Nat
 
-def mem0 : Mem := fun c => some c
+/-- the value stored in the cell with this id (`d=<mode>` of the case header) -/
+def valOf (mode : String) (id : Nat) : Nat :=
+  match mode with
+  | "zero" => 0
+  | "same" => 7
+  | "dup" => id / 2
+  | "mod3" => id % 3
+  | _ => id
+
+def memOf (mode : String) : Mem := fun c => some (valOf mode c)
 
 def showVal : Option (Option Nat) → String
   | none => "UB"
@@ -108,7 +122,8 @@ def flavourNext (f : Flavour) (next : σ → Outcome (Option π × σ)) (cell : 
   | .ref | .mut =>
     match refNext next cell st.1 with
     | .panic k => .panic k
-    | .ok (x, s') => .ok (x.map fun c => c.map fun c => st.2 c, (s', st.2))
+    -- a reference is shown by the cell it points to (the harness locates it by address)
+    | .ok (x, s') => .ok (x.map fun c => c.map fun c => some c, (s', st.2))
   | .owned => ownedNext next cell none st
 
 /-- the records of `n` calls by the code-shaped model -/
@@ -139,15 +154,17 @@ def modelRecords (f : Flavour) (wi : Bool) (next : σ → Outcome (Option π × 
       (s!"{h}:{item}" :: r.1, v :: r.2.1, r.2.2)
 
 /-- the records demanded by the specification: `item k` is the `k`-th position -/
-def specRecords (wi : Bool) (total : Nat) (item : Nat → Option π) (cell : π → Option Nat)
-    (showP : π → String) (n : Nat) : List String :=
+def specRecords (f : Flavour) (m0 : Mem) (wi : Bool) (total : Nat) (item : Nat → Option π)
+    (cell : π → Option Nat) (showP : π → String) (n : Nat) : List String :=
   (List.range n).map fun k =>
     let rem := Spec.remaining total k
     let it := match item k with
       | none => "-"
       | some p =>
         let v := match cell p with
-          | some c => toString c
+          | some c =>
+            -- references are shown by their cell, copies and moved-out values by their value
+            if f = Flavour.ref || f = Flavour.mut then toString c else showVal (some (m0 c))
           | none => "UB"
         if wi then s!"{v}@{showP p}" else v
     s!"{rem}/{rem}/{rem}:{it}"
@@ -162,15 +179,106 @@ def showLeft (mem : Mem) (leafIds : List Nat) : String :=
     | none => "P")
 where showNats' (l : List String) : String := if l.isEmpty then "-" else ",".intercalate l
 
+/-- the item part of a record `<lower>/<upper>/<len>:<item>` -/
+def itemOf (rec : String) : String := ":".intercalate ((rec.splitOn ":").drop 1)
+
+/-- number of `next` calls std's consumer `m` makes on an iterator with `r` items left
+    (`count`, `last`, `fold` run to the first `None`; `nth(j)` stops after `j + 1` items;
+    the panicking closure of `panic.p` stops `for_each` after `p + 1` items) -/
+def consumerCalls (m : String) (r : Nat) : Nat :=
+  match m.splitOn "." with
+  | ["nth", j] => min (j.toNat! + 1) (r + 1)
+  | ["panic", p] => min (p.toNat! + 1) (r + 1)
+  | _ => r + 1
+
+/-- The answer of a `consume` operation, computed from the records of plain `next` calls:
+    `after` calls, then std's consumer (built on `next`), then `n` more calls on the survivor. -/
+def consumeAnswer (m : String) (after n : Nat) (recs : List String) (fresh : String) : String :=
+  let items := recs.map itemOf
+  let rest := (items.drop after).takeWhile (· ≠ "-")
+  let calls := consumerCalls m rest.length
+  let survivor := ";".intercalate ((recs.drop (after + calls)).take n)
+  let showL (l : List String) : String := if l.isEmpty then "-" else ",".intercalate l
+  match m.splitOn "." with
+  | ["count"] => s!"count={rest.length}"
+  | ["last"] => s!"last={rest.getLast?.getD "-"}"
+  | ["fold"] => s!"fold={showL rest}"
+  | ["nth", j] => s!"nth={(rest[j.toNat!]?).getD "-"} | {survivor}"
+  | ["panic", p] =>
+    let how := if p.toNat! < rest.length then "panicked" else "finished"
+    s!"seen={showL (rest.take (p.toNat! + 1))} {how} | {survivor} | fresh={fresh}"
+  | _ => "bad-op"
+
 /-- answer of an `iter` / `left` operation for any position iterator -/
 def answer (op : String) (f : Flavour) (wi : Bool) (split : Option Nat) (n : Nat) (leafIds : List Nat) (total : Nat)
     (next : σ → Outcome (Option π × σ)) (hint : σ → Outcome (Nat × Option Nat))
     (counter : σ → π) (cell : π → Option Nat) (item : Nat → Option π) (showP : π → String)
-    (s0 : σ) : String :=
+    (mem0 : Mem) (s0 : σ) : String :=
+  if op.startsWith "consume" then
+    -- op = "consume <m> <after>" (packed by the callers)
+    match op.splitOn " " with
+    | [_, cm, afterS] =>
+      let after := afterS.toNat!
+      -- specification: from the records of plain calls
+      let long := after + (total + 1) + n
+      let srecs := specRecords f mem0 wi total item cell showP long
+      let restLen (recs : List String) := (((recs.map itemOf).drop after).takeWhile (· ≠ "-")).length
+      let callsS := after + consumerCalls cm (restLen srecs) + n
+      let visited := (List.range callsS).filterMap fun k => (item k).bind cell
+      let specMem : Mem := fun o => if f = Flavour.owned && visited.contains o then none else mem0 o
+      let freshOf (mem : Mem) : String :=
+        let vals := (List.range total).filterMap fun k =>
+          (item k).map fun p => match cell p with
+            | some c => showVal (some (mem c))
+            | none => "UB"
+        if vals.isEmpty then "-" else ",".intercalate vals
+      let t := if f = Flavour.owned then " drops=ok" else ""
+      -- model: `after` calls, then std's loops `drain` / `nthOf` (Model/Iter.lean) over the
+      -- flavour's step function, then the survivor
+      let stepStr : σ × Mem → Outcome (Option String × (σ × Mem)) := fun st =>
+        if wi then
+          match withIndexNext (fun (s : σ × Mem) => counter s.1) (flavourNext f next cell) st with
+          | .panic k => .panic k
+          | .ok (x, st') => .ok (x.map fun (i, v) => s!"{showVal v}@{showP i}", st')
+        else
+          match flavourNext f next cell st with
+          | .panic k => .panic k
+          | .ok (x, st') => .ok (x.map showVal, st')
+      let showL (l : List String) : String := if l.isEmpty then "-" else ",".intercalate l
+      let model : String :=
+        match collect stepStr after (s0, mem0) with
+        | .panic k => s!"panic({k})"
+        | .ok (_, st1) =>
+          match cm.splitOn "." with
+          | ["nth", j] =>
+            match nthOf stepStr j.toNat! st1 with
+            | .panic k => s!"panic({k})"
+            | .ok (x, st2) =>
+              let r := modelRecords f wi next hint counter cell showP n st2
+              s!"nth={x.getD "-"} | {";".intercalate r.1}"
+          | ["panic", p] =>
+            -- `for_each` stops when the closure panics at its p-th element: p + 1 items
+            match drain stepStr (p.toNat! + 1) st1 with
+            | .panic k => s!"panic({k})"
+            | .ok (xs, st2) =>
+              let how := if xs.length = p.toNat! + 1 then "panicked" else "finished"
+              let r := modelRecords f wi next hint counter cell showP n st2
+              s!"seen={showL xs} {how} | {";".intercalate r.1} | fresh={freshOf r.2.2.2}"
+          | [c] =>
+            match drain stepStr (total + 1) st1 with
+            | .panic k => s!"panic({k})"
+            | .ok (xs, _) =>
+              if c = "count" then s!"count={xs.length}"
+              else if c = "last" then s!"last={xs.getLast?.getD "-"}"
+              else s!"fold={showL xs}"
+          | _ => "bad-op"
+      both (consumeAnswer cm after n srecs (freshOf specMem) ++ t) (model ++ t)
+    | _ => "bad-op"
+  else
   let m := modelRecords f wi next hint counter cell showP n (s0, mem0)
   if op = "left" then
     let visited := (List.range n).filterMap fun k => (item k).bind cell
-    let specMem : Mem := fun o => if visited.contains o then none else some o
+    let specMem : Mem := fun o => if visited.contains o then none else mem0 o
     both (showLeft specMem leafIds) (showLeft m.2.2.2 leafIds)
   else
     let tail (distinct : Bool) : String :=
@@ -180,7 +288,7 @@ def answer (op : String) (f : Flavour) (wi : Bool) (split : Option Nat) (n : Nat
       | _ => ""
     match split with
     | none =>
-      let spec := ";".intercalate (specRecords wi total item cell showP n) ++ tail true
+      let spec := ";".intercalate (specRecords f mem0 wi total item cell showP n) ++ tail true
       let model := ";".intercalate m.1 ++ tail (nodup m.2.1)
       both spec model
     | some k =>
@@ -189,8 +297,8 @@ def answer (op : String) (f : Flavour) (wi : Bool) (split : Option Nat) (n : Nat
       -- up to `k` and of the plain run from `k` on
       let m0 := modelRecords f false next hint counter cell showP n (s0, mem0)
       let m1 := modelRecords f true next hint counter cell showP n (s0, mem0)
-      let spec := ";".intercalate ((specRecords true total item cell showP n).take k ++
-        (specRecords false total item cell showP n).drop k) ++ tail true
+      let spec := ";".intercalate ((specRecords f mem0 true total item cell showP n).take k ++
+        (specRecords f mem0 false total item cell showP n).drop k) ++ tail true
       let model := ";".intercalate (m1.1.take k ++ m0.1.drop k) ++ tail (nodup m0.2.1)
       both spec model
 
@@ -241,11 +349,13 @@ def splitPre (toks : List String) : List String × List String :=
   (toks.filterMap fun t => if t.startsWith "pre:" then some (t.drop 4).toString else none,
    toks.filter fun t => !t.startsWith "pre:")
 
-def finishTensor (root : Option (View String Nat)) (post : List String) : State × String :=
+def finishTensor (mode : String) (root : Option (View String Nat)) (post : List String) :
+    State × String :=
   match post.foldl (fun acc tok => acc.bind fun v => applyTensorAdaptor v tok) root with
   | none => (.none, "reject")
   | some v =>
-    (.tensor (v.shape.map (·.1)) (viewSource v) (viewLeafIds v), s!"ok shape={showShape v.shape}")
+    (.tensor (v.shape.map (·.1)) (viewSource v) (viewLeafIds v) mode,
+      s!"ok shape={showShape v.shape}")
 
 def applyMatrixAdaptor (src : MSource Nat) (tok : String) : Option (MSource Nat) :=
   match tok.splitOn ":" with
@@ -286,7 +396,11 @@ def shapeIterAnswer (lens : List Nat) (n : Nat) : String :=
   if total ≤ usizeMax then both (";".intercalate specRecs) model
   else s!"unrepresentable-length ## {model}"
 
-def matrixAnswer (op : String) (src : MSource Nat) (leafIds : List Nat) (toks : List String) : String :=
+def matrixAnswer (op0 : String) (src : MSource Nat) (leafIds : List Nat) (m0 : Mem)
+    (toks : List String) : String :=
+  let op := if op0 = "consume" then
+      s!"consume {(optArg "m" toks).getD "count"} {((optArg "after" toks).bind String.toNat?).getD 0}"
+    else op0
   let kind := (optArg "k" toks).getD "rowmajor"
   let a := natArg "a" toks 0
   let n := natArg "n" toks 0
@@ -300,29 +414,33 @@ def matrixAnswer (op : String) (src : MSource Nat) (leafIds : List Nat) (toks : 
     match kind with
     | "rowmajor" =>
       answer op f wi split n leafIds (src.rows * src.columns) rowMajorNext rowMajorSizeHint counterM
-        src.cell (Spec.rowMajorItem src.rows src.columns) showPos (MatIter.new src.rows src.columns)
+        src.cell (Spec.rowMajorItem src.rows src.columns) showPos m0 (MatIter.new src.rows src.columns)
     | "colmajor" =>
       answer op f wi split n leafIds (src.rows * src.columns) colMajorNext colMajorSizeHint counterM
-        src.cell (Spec.colMajorItem src.rows src.columns) showPos (MatIter.new src.rows src.columns)
+        src.cell (Spec.colMajorItem src.rows src.columns) showPos m0 (MatIter.new src.rows src.columns)
     | "row" =>
       match LineIter.newRow src.rows src.columns a with
       | .panic k => s!"panic({k})"
       | .ok it =>
         answer op f false none n leafIds src.columns lineNext (fun it => .ok it.sizeHint) counterL
-          src.cell (Spec.rowItem src.columns a) showPos it
+          src.cell (Spec.rowItem src.columns a) showPos m0 it
     | "col" =>
       match LineIter.newColumn src.rows src.columns a with
       | .panic k => s!"panic({k})"
       | .ok it =>
         answer op f false none n leafIds src.rows lineNext (fun it => .ok it.sizeHint) counterL
-          src.cell (Spec.columnItem src.rows a) showPos it
+          src.cell (Spec.columnItem src.rows a) showPos m0 it
     | "diag" =>
       answer op f false none n leafIds (min src.rows src.columns) lineNext (fun it => .ok it.sizeHint)
-        counterL src.cell (Spec.diagonalItem src.rows src.columns) showPos
+        counterL src.cell (Spec.diagonalItem src.rows src.columns) showPos m0
         (LineIter.newDiagonal src.rows src.columns)
     | _ => "bad-op"
 
-def tensorAnswer (op : String) (src : TSource Nat) (leafIds : List Nat) (toks : List String) : String :=
+def tensorAnswer (op0 : String) (src : TSource Nat) (leafIds : List Nat) (m0 : Mem)
+    (toks : List String) : String :=
+  let op := if op0 = "consume" then
+      s!"consume {(optArg "m" toks).getD "count"} {((optArg "after" toks).bind String.toNat?).getD 0}"
+    else op0
   let n := natArg "n" toks 0
   let wi := (optArg "wi" toks) == some "1"
   let split := (optArg "split" toks).bind String.toNat?
@@ -330,9 +448,12 @@ def tensorAnswer (op : String) (src : TSource Nat) (leafIds : List Nat) (toks : 
   | none => "bad-op"
   | some f =>
     answer op f wi split n leafIds (prod src.shape) shapeNext (fun it => it.sizeHint) (·.indexes)
-      src.cell (Spec.shapeItem src.shape) showIdx (ShapeIter.new src.shape)
+      src.cell (Spec.shapeItem src.shape) showIdx m0 (ShapeIter.new src.shape)
 
 def step (s : State) (toks : List String) : State × String :=
+  -- `d=<mode>` on a case header: the data stored in the leaves
+  let mode := (optArg "d" toks).getD "ids"
+  let toks := if toks.head? = some "@" then toks.filter (fun t => !t.startsWith "d=") else toks
   match toks with
   | ["@", "shape", lensS] =>
     match parseNatList lensS with
@@ -343,7 +464,7 @@ def step (s : State) (toks : List String) : State × String :=
     | none => (.none, "bad-op")
     | some shape =>
       let n := elements shape
-      finishTensor (mkTensor 0 shape (List.range n)) adaptors
+      finishTensor mode (mkTensor 0 shape (List.range n)) adaptors
   | "@" :: "stack" :: alongS :: _form :: countS :: shapeS :: rest =>
     match alongS.splitOn ".", countS.toNat?, parseShape shapeS with
     | [posS, name], some count, some shape =>
@@ -353,7 +474,7 @@ def step (s : State) (toks : List String) : State × String :=
         let (pre, post) := splitPre rest
         match (List.range count).mapM fun j => zipSource j shape pre with
         | none => (.none, "reject")
-        | some srcs => finishTensor (mkStack srcs (pos, name)) post
+        | some srcs => finishTensor mode (mkStack srcs (pos, name)) post
     | _, _, _ => (.none, "bad-op")
   | "@" :: "chain" :: name :: _form :: shapesS :: rest =>
     match (shapesS.splitOn "|").mapM parseShape with
@@ -363,22 +484,22 @@ def step (s : State) (toks : List String) : State × String :=
       -- `pre:rename` changes the name of the chained dimension along with the others
       match (List.zip (List.range shapes.length) shapes).mapM fun (j, shape) => zipSource j shape pre with
       | none => (.none, "reject")
-      | some srcs => finishTensor (mkChain srcs name) post
+      | some srcs => finishTensor mode (mkChain srcs name) post
   | "@" :: "matrix" :: rowsS :: colsS :: adaptors =>
     match rowsS.toNat?, colsS.toNat? with
     | some rows, some cols =>
       let start : Option (MSource Nat) := some (MSource.ofMatrix rows cols)
       match adaptors.foldl (fun acc tok => acc.bind fun src => applyMatrixAdaptor src tok) start with
       | none => (.none, "bad-op")
-      | some src => (.matrix src (List.range (rows * cols)), s!"ok size={src.rows}x{src.columns}")
+      | some src => (.matrix src (List.range (rows * cols)) mode, s!"ok size={src.rows}x{src.columns}")
     | _, _ => (.none, "bad-op")
   | op :: rest =>
-    if op = "iter" || op = "left" then
+    if op = "iter" || op = "left" || op = "consume" then
       match s with
       | .none => (s, "no-source")
       | .shape lens => (s, shapeIterAnswer lens (natArg "n" rest 0))
-      | .tensor _ src leafIds => (s, tensorAnswer op src leafIds rest)
-      | .matrix src leafIds => (s, matrixAnswer op src leafIds rest)
+      | .tensor _ src leafIds mode => (s, tensorAnswer op src leafIds (memOf mode) rest)
+      | .matrix src leafIds mode => (s, matrixAnswer op src leafIds (memOf mode) rest)
     else (s, "bad-op")
   | _ => (s, "bad-op")
 
